@@ -556,6 +556,76 @@ def do_triple(r, P, T_, K, state, R=None):
 # }}}
 
 
+# {{{ part U, histories: one unifier instance answering several queries
+
+HIST_KERNELS = (("Sum", T(("Product", T(A, C(2))), C(1))), ("Product", T(A, C(2))),
+                ("Sum", T(A, B_)))
+
+
+def _fcall(*args):
+    return ("Call", V("f"), T(*args))
+
+
+@lru_cache(maxsize=None)
+def history_queries():
+    """(pattern, target) queries over the candidates {a, b}: each kernel against its renaming to
+    x / to y, and inside a call whose other argument binds ``a`` to the same / to another name
+    (kernel first and kernel last)."""
+    qs = []
+    for k in HIST_KERNELS:
+        kx = rename_vars(k, {"a": "x", "b": "z"})
+        ky = rename_vars(k, {"a": "y", "b": "z"})
+        qs += [(k, kx), (k, ky),
+               (_fcall(A, k), _fcall(X, kx)), (_fcall(A, k), _fcall(Y, kx)),
+               (_fcall(k, A), _fcall(kx, X)), (_fcall(k, A), _fcall(kx, Y))]
+    return tuple(qs)
+
+
+def _record_set(recs, K):
+    out = set()
+    for rec in recs:
+        sigma, _ = record_bindings(rec, K)
+        out.add(tuple(sorted(sigma.items())))
+    return out
+
+
+def do_history(r, K, seq):
+    """``seq`` = indices into history_queries(); one shared instance answers them in order; after
+    every step the set of records must be the one a fresh instance returns (which the other
+    families judge)."""
+    from pymbolic.mapper.unifier import UnidirectionalUnifier
+    qs = history_queries()
+    shared = UnidirectionalUnifier(frozenset(K))
+    for n, i in enumerate(seq):
+        P, T_ = qs[i]
+        r.evals += 1
+        try:
+            got = _record_set(shared(built(P), built(T_)), K)
+            err = None
+        except (RecursionError, Hang):
+            raise
+        except Exception as e:  # noqa: BLE001
+            got, err = None, type(e).__name__
+        want = _record_set(UnidirectionalUnifier(frozenset(K))(built(P), built(T_)), K)
+        if n:
+            r.keys.append(("uh", K, tuple(seq[:n + 1])))
+        if got != want:
+            before = "; ".join(show_triple(qs[j][0], qs[j][1], K) for j in seq[:n]) or "nothing"
+            def fmt(rs):
+                return "[" + "; ".join("{" + ", ".join(f"{k}={show(v)}" for k, v in rec) + "}"
+                                       for rec in sorted(rs, key=repr)) + "]"
+            r.fail("instance-state",
+                   f"instance-state|{show_triple(P, T_, K)} after {n} earlier quer"
+                   + ("y" if n == 1 else "ies"),
+                   f"a unifier instance that had answered {before} returns "
+                   f"{('raises ' + err) if got is None else fmt(got)} for {show_triple(P, T_, K)}; "
+                   f"a fresh instance returns {fmt(want)}",
+                   witness=("histq", tuple(K), tuple(seq[:n + 1])))
+            return
+
+# }}}
+
+
 # {{{ part B: the matchpy bridge
 
 BRIDGED = gen.ctors(tags=BRIDGED_TAGS)
@@ -1049,7 +1119,12 @@ class C16(Check):
             "resp. every nesting containing that root, for patterns derived from each nesting by "
             "wildcarding one or two leaves, for all-wildcard patterns against non-commutative "
             "subjects holding two ==-equal constants, and for one rule object applied to two such "
-            "subjects in a row. "
+            "subjects in a row; "
+            "one unifier instance answering every sequence of 2 (thorough 3) of 18 queries "
+            "(three sum/product kernels over the candidates {a} and {a, b} against their renamings, "
+            "alone and as one call argument next to a second occurrence of a candidate that is bound "
+            "to the same / to another name), the record set after every step compared with a fresh "
+            "instance's. "
             "Non-trivial = the unifier / bridge returned at least one record / match / rewrite (all "
             "of which are checked); distinct = distinct (pattern, target, candidates) or (subject, "
             "pattern), counted per hash seed.")
@@ -1115,6 +1190,9 @@ class C16(Check):
             ("u-cross", lambda: (("cross", P, K) for P in patterns_nest()
                                  for K in candidate_sets(P, full="few" if tier == "thorough"
                                                          else "all-core"))),
+            ("u-history", lambda: (("hist", K, i, 2 if tier == "quick" else 3)
+                                   for K in (("a",), ("a", "b"))
+                                   for i in range(len(history_queries())))),
             ("b-roundtrip2", lambda: (("rt", s) for s in gen.depth2(BRIDGED, RT_LEAVES))),
             ("b-roundtrip-nest", lambda: (("rt", s) for _, s in gen.nest2(BRIDGED, BRIDGED))),
             ("b-roundtrip-twins", twin_roundtrip_items),
@@ -1203,6 +1281,13 @@ class C16(Check):
             P, K = item[1], tuple(item[2])
             for t in cross_targets()[P[0]]:
                 do_triple(r, P, t, K, state)
+        elif what == "hist":
+            _, K, first, depth = item
+            n = len(history_queries())
+            for rest in itertools.product(range(n), repeat=depth - 1):
+                do_history(r, tuple(K), (first, *rest))
+        elif what == "histq":
+            do_history(r, tuple(item[1]), tuple(item[2]))
         elif what == "rt":
             self.roundtrip(r, item[1])
         elif what == "m2":
